@@ -261,6 +261,7 @@ class Shadow:
         u0n = float(np.max(np.abs(U[0]))) if U[0].size else 0.0
         val = {'full_abs': full, 'last_abs': norms[-1], 'full_rel': full / u0n if u0n else np.inf, 'last_rel': norms[-1] / u0n if u0n else np.inf}[residual_type]
         S = max(scales) * (M + 2)
+        self.last_S_abs = S  # rounding scale of the absolute defect `full` (S below is relative for the *_rel residual types)
         if residual_type.endswith('rel'):
             S = S / u0n if u0n else np.inf
         return val, full, S
